@@ -95,9 +95,16 @@ func ZVC31UnmarshalState13(data []byte) (*ZVC31State13, bool) {
 // consisting of c, a client hello carrying ticket and clientSuites, and the four
 // key-capability flags processClientHello would have set.
 func ZVC31Check12(c *Conn, ticket []byte, clientSuites []uint16, ecdheOk, ecSignOk, rsaSignOk, rsaDecryptOk bool) (resume bool, suite uint16, st *ZVC31State) {
+	return ZVC31Check12V(c, c.vers, ticket, clientSuites, ecdheOk, ecSignOk, rsaSignOk, rsaDecryptOk)
+}
+
+// ZVC31Check12V is ZVC31Check12 with the version the client OFFERED in its hello
+// (clientHello.vers, the client's maximum) given separately from the version that
+// was NEGOTIATED for the connection (c.vers, set by ZVC31Conn).
+func ZVC31Check12V(c *Conn, helloVers uint16, ticket []byte, clientSuites []uint16, ecdheOk, ecSignOk, rsaSignOk, rsaDecryptOk bool) (resume bool, suite uint16, st *ZVC31State) {
 	hs := &serverHandshakeState{
 		c:            c,
-		clientHello:  &clientHelloMsg{vers: c.vers, cipherSuites: clientSuites, sessionTicket: ticket, ticketSupported: true},
+		clientHello:  &clientHelloMsg{vers: helloVers, cipherSuites: clientSuites, sessionTicket: ticket, ticketSupported: true},
 		hello:        new(serverHelloMsg),
 		ecdheOk:      ecdheOk,
 		ecSignOk:     ecSignOk,
